@@ -932,6 +932,9 @@ class SymMixin:
                     # converts to UTC first: leaves year 1..9999 for values within their offset of datetime.min / datetime.max
                     self.may_raise(run, "OverflowError", self.site(node), "utctimetuple() of a datetime within its UTC offset of datetime.min/max")
                 return Sym((name, t), "timetuple", of=o)
+            if name == "astimezone":
+                # converts through UTC: leaves year 1..9999 for values within their offset of datetime.min / datetime.max
+                self.may_raise(run, "OverflowError", self.site(node), "astimezone() of a datetime within its UTC offset of datetime.min/max")
             if name in ("utcoffset", "astimezone", "isoformat", "date", "time"):
                 return Sym((name, t, at), "any" if name == "utcoffset" else "datetime" if name == "astimezone" else "any")
         if k == "timedelta":
